@@ -101,7 +101,8 @@ where
 {
     let bb = rc(a[11], a[12], a[13], a[14]);
     let by = pt(a[8], a[9]);
-    let (t0, t1, t2) = match tr_case::<C, O>(a, bb, bb.translate(by)) {
+    // bb is the box of the target the translated image is drawn on; the original is drawn on bb moved back
+    let (t0, t1, t2) = match tr_case::<C, O>(a, bb.translate(Point::zero() - by), bb) {
         Err(_) => return "FAIL new rejected the documented length".to_string(),
         Ok(x) => x,
     };
